@@ -88,8 +88,15 @@ inline bool parse_scenario(const std::string& line, scenario& sc) {
 }
 
 inline int det_main(int argc, char** argv) {
+#if defined(__SANITIZE_ADDRESS__)
+  // AddressSanitizer's own SEGV/BUS/FPE/ILL handler prints the faulting stack (and calls __asan_on_error, which dumps
+  // the partial log): do not replace it
+  for (int s : {SIGABRT})
+    signal(s, crash_handler);
+#else
   for (int s : {SIGSEGV, SIGBUS, SIGABRT, SIGFPE, SIGILL})
     signal(s, crash_handler);
+#endif
   std::istream* in = &std::cin;
   std::ifstream f;
   if (argc > 1) {
